@@ -65,6 +65,7 @@ def run_case(case, built=None, keep_obs=False):
     if not own or case.get('fresh', True):
         built.fresh(events=case.get('events', True), store=case.get('store', False))
     ctl = ctl_from(case.get('ctl'))
+    harness.COUNTERS['dup_request'] = 0
     shape = case.get('shape', 'single')
     runs = [tuple(r) for r in case['runs']]
     snap_before = snapshot_dag(built.dag) if shape == 'seq' or case.get('snapshot') else None
@@ -81,8 +82,9 @@ def run_case(case, built=None, keep_obs=False):
     stats = {'steps': obs.steps, 'choice_points': obs.choice_points, 'quiescent': obs.quiescent_points,
              'kwargs_cmp': 0, 'invocations': 0, 'retry_gaps': 0, 'sched_len': len(obs.sched),
              'max_pending': obs.max_pending, 'post_end_released': ctl.post_end_released,
-             'cancel_delivered': 0, 'dup_request': 0, 'trace_len': len(obs.trace)}
+             'cancel_delivered': 0, 'trace_len': len(obs.trace)}
     cancelled = obs.cancelled_steps
+    stats['dup_request'] = harness.COUNTERS.get('dup_request', 0)
     stats['cancel_inflight'] = sum(1 for g, t in ctl.cancel_info.values() if g > 0 or t > 0)
     faults = bool(case.get('collab_faults'))
     for i, ro in enumerate(obs.runs):
